@@ -17,6 +17,8 @@ pub mod c14;
 pub mod c20;
 pub mod c21;
 pub mod c22;
+pub mod c25;
+pub mod c26;
 pub mod c27;
 pub mod c28;
 pub mod c31;
@@ -59,6 +61,8 @@ pub fn dispatch(ctx: &Ctx, replay: Option<&str>) -> i32 {
         "C20" => c20,
         "C21" => c21,
         "C22" => c22,
+        "C25" => c25,
+        "C26" => c26,
         "C27" => c27,
         "C28" => c28,
         "C29" => c29,
